@@ -19,6 +19,11 @@ def sid_to_bytes(sid: str) -> bytes:
     revision = int(sid_split[1])
     authority = int(sid_split[2])
 
+    # The identifier authority is a 48-bit value and each sub authority is a
+    # 32-bit value, anything larger cannot be represented in the SID structure.
+    if authority >= 1 << 48 or any(int(v) >= 1 << 32 for v in sid_split[3:]):
+        raise ValueError(f"Input string '{sid}' is not a valid SID string")
+
     data = bytearray(authority.to_bytes(8, byteorder="big"))
     data[0] = revision
     data[1] = len(sid_split) - 3
